@@ -6,13 +6,14 @@ HEADER = """C09 - CC_Stack is LIFO and CC_Queue is FIFO.
     these operations touches the defective add_at branches), for all histories, growth steps and wrap-arounds."""
 IMPORTS = """From Coq Require Import Permutation Sorted.
 From CC Require Import Base.Prelude Base.Alloc Base.Ledger Generated.Status Generated.Guards.
-From CC Require Import Array.ArrayModel Array.ArrayProofs Array.ArrayRefine Array.ArrayMore.
+From CC Require Import Array.ArrayModel Array.ArrayProofs Array.ArrayRefine Array.ArrayMore Array.ArrayStack.
 From CC Require Import Deque.DequeModel Deque.DequeProofs Deque.DequeProofs2 Deque.DequeProofs3 Deque.DequeProofs4 Deque.DequeProofs5.
 Local Open Scope N_scope."""
 THEOREMS = [
   ("C09_stack_push", "stack_push_spec", "push: the new element becomes the top; a refused growth leaves the stack unchanged"),
   ("C09_stack_pop", "stack_pop_spec", "pop returns and removes the most recently pushed element not yet popped; empty: error, same stack"),
   ("C09_stack_peek", "stack_peek_spec", "peek returns that same element without change"),
+  ("C09_stack_filter", "stack_filter_spec", "filter: the derived stack holds the kept elements bottom to top (so it pops them in the same relative order)"),
   ("C09_stack_iter", "it_fresh_complete", "iteration over the underlying array observes exactly the live elements, bottom to top"),
   ("C09_queue_step_refines", "queue_step_refines", "one queue operation refines the ideal FIFO list"),
   ("C09_queue_run_refines", "queue_run_refines", "all enqueue/poll/peek histories"),
